@@ -36,7 +36,7 @@ pub fn history_for(cfg: &Cfg, h: u64) -> (usize, Vec<KOp>, &'static str) {
     let profs = profiles(cfg.thorough);
     let sel: Vec<&KProf> = match cfg.get("profile") {
         Some(name) => profs.iter().filter(|p| name.split(',').any(|n| n == p.name)).collect(),
-        None => profs.iter().collect(),
+        None => profs.iter().filter(|p| p.name != "marathon").collect(),
     };
     // the profile is drawn from the history index through a hash, so that every shard (h = shard +
     // k * nshards) sees every profile equally often whatever the number of profiles
